@@ -3,6 +3,7 @@ import ExoVerif.Model.Genesis
 import ExoVerif.Model.GenesisAssets
 import ExoVerif.Model.GenesisOperator
 import ExoVerif.Model.GenesisMods
+import ExoVerif.Model.GenesisValSet
 /- driver for the C18 correspondence: the harness describes the cross-module core of the real state before the
    export (`gen.und`, `gen.q`, `gen.cur`, `gen.prev`, `gen.rev`, `gen.val`), `gen.roundtrip` prints what the model says the
    re-imported chain holds (undelegations with hold counts, dogfood queues, reverse key lookups, validator set).
@@ -17,7 +18,10 @@ import ExoVerif.Model.GenesisMods
    identifier is unknown).
    x/delegation rows: `gen.dl` one row of the delegation-state store (staker, asset, operator, share, pending);
    `gen.pools` prints, per row, the pool the readers find for it on the re-imported x/assets stores and the amount the
-   row's share stands for (`missing` = ErrNoOperatorAssetKey). -/
+   row's share stands for (`missing` = ErrNoOperatorAssetKey).
+   validator set: `gen.jl` the jail status of one stored validator (IsValidatorJailed), `gen.tp` LastTotalPower (stored
+   validators = `gen.val`, reverse lookups = `gen.rev`); `gen.valset` prints what initVals (exportVals s) stores, its
+   LastTotalPower, the validators returned to the consensus engine and the jail status per stored validator. -/
 namespace ExoVerif.Driver.Genesis
 open ExoVerif.Genesis ExoVerif.Driver
 
@@ -100,19 +104,36 @@ def poolsRoundtrip (a : Assets) (rows : List DelegRow) : String :=
         s!"{r.key}={p.total}:{p.pending}:{p.totalShare}:{p.opShare}:{am}")
     "init=ok pools=[" ++ joinWith "," ls ++ "]"
 
+/-- `gen.valset`: the validator-set part of x/dogfood after export + import (code as it is) -/
+def valsetRoundtrip (core : Core) (jl : List (String × Bool)) (tp : Int) : String :=
+  let pre : ValSt := { vals := core.vals, total := tp, reverse := core.reverse, jailedOps := [] }
+  let s : ValSt := { pre with jailedOps := (jl.filter (·.2)).filterMap (fun j => operatorOf pre j.1) }
+  match roundtripVals codeValCfg s with
+  | none => "init=panic"
+  | some r =>
+    let vs := sortStrings (r.st.vals.map (fun v => s!"{v.1} {v.2}"))
+    let us := sortStrings (r.updates.map (fun v => s!"{v.1} {v.2}"))
+    let js := sortStrings (r.st.vals.map (fun v => s!"{v.1} {if isJailed r.st v.1 then 1 else 0}"))
+    "init=ok val=[" ++ joinWith "," vs ++ s!"] total={r.st.total} upd=[" ++ joinWith "," us ++ "] jailed=[" ++ joinWith "," js ++ "]"
+
 structure St where
   core : Core
   assets : Assets
   operator : OperatorMod
   mods : Mods
   delegs : List DelegRow := []
+  jl : List (String × Bool) := []
+  tp : Int := 0
 
 def step (st : St) (w : List String) : St × String :=
   let s := st.core
   let a := st.assets
   let o := st.operator
   match w with
-  | ["gen.reset"] => (⟨empty, emptyAssets, emptyOperator, emptyMods, []⟩, "ok")
+  | ["gen.reset"] => (⟨empty, emptyAssets, emptyOperator, emptyMods, [], [], 0⟩, "ok")
+  | ["gen.jl", cons, f] => ({ st with jl := st.jl ++ [(cons, f == "1")] }, "ok")
+  | ["gen.tp", p] => ({ st with tp := parseInt! p }, "ok")
+  | ["gen.valset"] => (st, valsetRoundtrip s st.jl st.tp)
   | ["gen.dl", sk, asset, op, sh, pd] => ({ st with delegs := st.delegs ++ [⟨sk, asset, op, parseInt! sh, parseInt! pd⟩] }, "ok")
   | ["gen.pools"] => (st, poolsRoundtrip a st.delegs)
   | ["gen.und", id, c, am, h] => ({ st with core := { s with unds := s.unds ++ [⟨id, parseInt! c, parseInt! am, parseInt! h⟩] } }, "ok")
@@ -147,6 +168,6 @@ def step (st : St) (w : List String) : St × String :=
   | ["gen.params"] => (st, paramsRoundtrip st.mods)
   | _ => (st, "bad-op")
 
-def main : IO Unit := runDriver (⟨empty, emptyAssets, emptyOperator, emptyMods, []⟩ : St) step
+def main : IO Unit := runDriver (⟨empty, emptyAssets, emptyOperator, emptyMods, [], [], 0⟩ : St) step
 
 end ExoVerif.Driver.Genesis
